@@ -206,6 +206,24 @@ Theorem C19_registry_roundtrip :
   run_flat (reg_read V nbt_dec) (reg_write (images V nbt_enc es) ++ rest) = FOk es rest.
 Proof. exact registry_roundtrip. Qed.
 
+(* After the join against the stock handler the bot holds the server's registries: if the server's
+   Configurations.Registries are rs (any number of registries and entries, any value type whose NBT reader
+   inverts its writer), AcceptConfig puts wire_of rs on the wire (one reg_write image per registry),
+   and the bot reads the registries it knows with Registry.ReadFrom (bot_reads), then for EVERY
+   interleaving the join completes as in C19_join and the bot's c.Registries are exactly rs (held_of:
+   same ids in the same order, same keys in the same id order, same values as NBT images).  The
+   model's b_regs is compared with the implementation's client.Registries on every stock session. *)
+Theorem C19_join_registries :
+  forall (offline_uuid : list N -> list N) (V : Type) (nbt_enc : V -> list N) (nbt_dec : dec V),
+  robust nbt_dec -> (forall v rest, run_flat nbt_dec (nbt_enc v ++ rest) = FOk v rest) ->
+  forall (bc : bcfg) (sc : scfg) (known : list N -> bool) (rs : server_regs V),
+  sc_cfg sc = CfgStock -> sc_registries sc = wire_of V nbt_enc rs -> bot_reads V nbt_enc nbt_dec bc known ->
+  regs_ok V known rs -> accepts offline_uuid sc (bc_name bc) ->
+  exists (f : sys bot srv) (n : nat),
+    joined_state offline_uuid bc sc f /\ every_interleaving offline_uuid bc sc (join_init bc) f n /\
+    b_regs (x_b f) = held_of V nbt_enc rs.
+Proof. exact join_registries. Qed.
+
 (* ------------------------------------------------------------------ the machines are the source's *)
 (* Gen/Gate.v is rendered from the repository on every run by tools/gotrans/gate.go: the bodies of
    join, joinLogin, joinConfiguration, pingAndList, AcceptConn, handshake, AcceptLogin, acceptListPing,
@@ -292,7 +310,7 @@ Theorem C19_skeleton_bot_join_writes :
       = (w1, -1, StCall "err := c.joinLogin(conn); err != nil"%string r1) /\
     run_seg fuel0 (bot_sem c [] frame0) (-1) Gate.bot_join_login = (w2, -1, StLoop body) /\
     drain (bot_act c) 5 (bot_join_init c)
-      = (w1 ++ w2, {| b_ph := BLogin; b_thr := -1; b_name := []; b_uuid := bc_claim c |}) /\
+      = (w1 ++ w2, {| b_ph := BLogin; b_thr := -1; b_name := []; b_uuid := bc_claim c; b_regs := [] |}) /\
     run_seg fuel0 (bot_sem c [] frame0) (-1) r1
       = ([], -1, StCall "err := c.joinConfiguration(conn); err != nil"%string r2) /\
     run_seg fuel0 (bot_sem c [] frame0) (-1) r2 = ([], -1, StReturn "nil"%string).
@@ -302,7 +320,7 @@ Theorem C19_skeleton_bot_ping_writes :
   exists w1 r1,
     run_seg fuel0 (bot_sem c [] frame0) (-1) Gate.bot_ping_and_list = (w1, -1, StRead r1) /\
     drain (bot_act c) 5 (bot_ping_init c)
-      = (w1, {| b_ph := BStatusList; b_thr := -1; b_name := []; b_uuid := bc_claim c |}) /\
+      = (w1, {| b_ph := BStatusList; b_thr := -1; b_name := []; b_uuid := bc_claim c; b_regs := [] |}) /\
     forall (b : bot) (json : list N), exists w2 r2,
        run_seg fuel0 (bot_sem c [("s"%string, FString json)] frame0) (b_thr b) (snd (split_scan (tl r1)))
          = (w2, b_thr b, StRead r2) /\
@@ -376,7 +394,7 @@ Proof. exact game_is_source. Qed.
 Definition ex_uuid (n : list N) : list N := rev n ++ [7%N].
 Definition ex_bc : bcfg :=
   {| bc_name := [83;116;101;118;101]%N; bc_claim := []; bc_host := [104]%N; bc_port := 25565%N;
-     bc_plugin := fun _ _ => None; bc_cookie := fun _ => None; bc_registry := fun rid _ => if N.eqb (lenN rid) 2 then Some true else None;
+     bc_plugin := fun _ _ => None; bc_cookie := fun _ => None; bc_registry := fun rid content => if N.eqb (lenN rid) 2 then Some (Some [(content, rid)]) else None;
      bc_time := 1700000000 |}.
 Definition ex_sc (thr : Z) (refuse : bool) (cfg : cfgmode) : scfg :=
   {| sc_threshold := thr;
@@ -385,7 +403,7 @@ Definition ex_sc (thr : Z) (refuse : bool) (cfg : cfgmode) : scfg :=
 
 Example C19_join_hyp_ok : accepts ex_uuid (ex_sc 256 false CfgStock) (bc_name ex_bc) /\
   regs_readable ex_bc (regs_of (ex_sc 256 false CfgStock)).
-Proof. split; [reflexivity|]. repeat constructor. Qed.
+Proof. split; [reflexivity|]. repeat constructor; eexists; reflexivity. Qed.
 Example C19_refuse_hyp_ok : refuses ex_uuid (ex_sc 0 true CfgStock) (bc_name ex_bc) [110;111]%N.
 Proof. eexists. split; reflexivity. Qed.
 (* the machines really run: greedy schedule, threshold 256, the stock configuration with two registries *)
@@ -425,6 +443,32 @@ Proof.
   - apply SSingle; [reflexivity|constructor].
 Qed.
 
+(* the hypotheses of C19_join_registries hold for a one-byte value codec and two registries *)
+Definition ex_vdec : dec N := ReadByte (fun b => Ret b).
+Definition ex_venc (v : N) : list N := [v].
+Definition ex_rs : server_regs N := [([109;99], [([97;98], 7); ([99], 9)]); ([109;100], [])]%N.
+Definition ex_bc2 : bcfg :=
+  {| bc_name := bc_name ex_bc; bc_claim := []; bc_host := []; bc_port := 1%N;
+     bc_plugin := fun _ _ => None; bc_cookie := fun _ => None;
+     bc_registry := fun rid content =>
+       Some match run_flat (reg_read N ex_vdec) content with
+            | FOk es [] => Some (images N ex_venc es)
+            | _ => None
+            end;
+     bc_time := 0 |}.
+Example C19_join_registries_hyp_ok :
+  robust ex_vdec /\ (forall v rest, run_flat ex_vdec (ex_venc v ++ rest) = FOk v rest) /\
+  bot_reads N ex_venc ex_vdec ex_bc2 (fun _ => true) /\ regs_ok N (fun _ => true) ex_rs /\
+  b_regs (x_b (grun_greedy ex_uuid ex_bc2
+                 {| sc_threshold := 64; sc_checker := None; sc_cfg := CfgStock;
+                    sc_registries := wire_of N ex_venc ex_rs; sc_status := fun _ => None |}
+                 100 (join_init ex_bc2))) = held_of N ex_venc ex_rs.
+Proof.
+  split; [repeat constructor|]. split; [reflexivity|]. split; [intros rid content; reflexivity|].
+  split; [|vm_compute; reflexivity].
+  repeat constructor; cbn; reflexivity.
+Qed.
+
 Print Assumptions C19_join.
 Print Assumptions C19_refuse.
 Print Assumptions C19_status.
@@ -442,6 +486,7 @@ Print Assumptions C19_close_conn.
 Print Assumptions C19_close_conn_reported.
 Print Assumptions C19_close_error_returns.
 Print Assumptions C19_registry_roundtrip.
+Print Assumptions C19_join_registries.
 Print Assumptions C19_skeleton_source.
 Print Assumptions C19_skeleton_ids.
 Print Assumptions C19_skeleton_bot_login.
